@@ -1,5 +1,6 @@
 """C11 — instance isolation and data-race freedom."""
 import os
+import re
 import shutil
 
 from vlib import common
@@ -7,6 +8,7 @@ from vlib import common
 
 def key_fn(case, obs, verdict):
     v = verdict[4:] if verdict.startswith("BAD:") else verdict
+    v = re.sub(r"instance_'[^']*'", "instance", v)   # which instance hit a runtime fault is schedule dependent
     f = case.split(" ")
     if f[0] == "race":
         # race:<function pairs> — the family is the set of racing functions (pool/variant left out)
@@ -15,7 +17,7 @@ def key_fn(case, obs, verdict):
     return ":".join(parts[:2])
 
 
-RULE = ("non-trivial: own cases with >=2 instances and >6 events; alias cases with >=2 shots and at least one definition "
+RULE = ("non-trivial: own cases with >=2 instances and >6 events; sched cases with >=2 instances; alias cases with >=2 shots and at least one definition "
         "carrying metadata/headers; race cases with >=2 instances; distinct = distinct case lines")
 
 
